@@ -10,47 +10,73 @@ namespace Tickit
 whose fields happen to fit. -/
 theorem dispatch_by_tag (reg : List ClassSig) (tag : String) (c : ClassSig)
     (h : dispatch reg tag = some c) : c ∈ reg ∧ c.tag = tag := by
-  sorry
+  exact dispatch_some_mem reg tag c h
 
 /-- a tag naming no known class is rejected, and only then. -/
 theorem dispatch_none_iff (reg : List ClassSig) (tag : String) :
     dispatch reg tag = none ↔ ∀ c ∈ reg, c.tag ≠ tag := by
-  sorry
+  exact dispatch_eq_none_iff reg tag
 
 /-- the choice does not depend on declaration / import order (distinct tags). -/
 theorem dispatch_perm_invariant (reg reg' : List ClassSig) (hp : reg.Perm reg')
     (hd : (reg.map (·.tag)).Nodup) (tag : String) : dispatch reg tag = dispatch reg' tag := by
-  sorry
+  exact dispatch_perm reg reg' hp hd tag
 
 /-- … nor on the presence of other classes, even with an identical field signature. -/
 theorem dispatch_ignores_others (reg : List ClassSig) (extra : ClassSig) (tag : String)
     (hne : extra.tag ≠ tag) :
     dispatch (extra :: reg) tag = dispatch reg tag ∧ dispatch (reg ++ [extra]) tag = dispatch reg tag := by
-  sorry
+  have hb : (extra.tag == tag) = false := by simpa using hne
+  constructor
+  · simp [dispatch, hb]
+  · simp only [dispatch, List.find?_append]
+    cases List.find? (fun c => c.tag == tag) reg <;> simp [hb]
 
 /-- requested subset ⇒ exactly those components; unknown name ⇒ error; no request ⇒ all. -/
 theorem select_exact (available : List Comp) (req : List Comp) (sel : List Comp)
     (h : selectComponents available (some req) = some sel) (c : Comp) :
     c ∈ sel ↔ c ∈ req ∧ c ∈ available := by
-  sorry
+  simp only [selectComponents] at h
+  split at h
+  · simp only [Option.some.injEq] at h
+    subst h
+    simp [List.mem_filter, and_comm]
+  · simp at h
 
 theorem select_unknown (available : List Comp) (req : List Comp) :
     selectComponents available (some req) = none ↔ ∃ c ∈ req, c ∉ available := by
-  sorry
+  simp only [selectComponents]
+  split
+  · rename_i hall
+    simp only [List.all_eq_true, decide_eq_true_eq] at hall
+    simp only [reduceCtorEq, false_iff, not_exists, not_and, Decidable.not_not]
+    exact hall
+  · rename_i hall
+    simp only [List.all_eq_true, decide_eq_true_eq] at hall
+    simp only [true_iff]
+    exact Classical.not_forall.mp hall |>.elim fun c hc => ⟨c, Classical.not_imp.mp hc⟩
 
 theorem select_all (available : List Comp) : selectComponents available none = some available := by
-  sorry
+  rfl
 
 /-- the wiring handed to the scheduler contains exactly the connections declared under
 `inputs` (component names unique). -/
 theorem wiring_from_configs_exact (cfgs : List (Comp × List (Port × CPort))) (h : UniqueKeys cfgs)
     (a : Comp) (p : Port) (b : Comp) (q : Port) :
     (InvWiring.fromConfigs cfgs).Conn a p b q ↔ ∃ e ∈ cfgs, e.1 = b ∧ alookup e.2 q = some (a, p) := by
-  sorry
+  simp only [InvWiring.Conn, alookup_fromConfigs]
+  constructor
+  · rintro ⟨ports, hl, hq⟩
+    exact ⟨(b, ports), (lastWrite_eq_some_iff cfgs h b ports).mp hl, rfl, hq⟩
+  · rintro ⟨⟨b', ports⟩, hm, hb, hq⟩
+    simp only at hb hq
+    subst hb
+    exact ⟨ports, (lastWrite_eq_some_iff cfgs h b' ports).mpr hm, hq⟩
 
 theorem keys_from_configs (cfgs : List (Comp × List (Port × CPort))) (c : Comp) :
     c ∈ akeys (InvWiring.fromConfigs cfgs) ↔ c ∈ akeys cfgs := by
-  sorry
+  unfold akeys
+  rw [← alookup_isSome_iff, alookup_fromConfigs, lastWrite_isSome_iff]
 
 example : dispatch [⟨"m.A", ["x"]⟩, ⟨"m.B", ["x"]⟩] "m.B" = some ⟨"m.B", ["x"]⟩ := by decide
 
